@@ -135,6 +135,18 @@ def reassembles(root, rec):
         if not good:
             return False
         full[:, c] = np2.read_int16(good[0], len(c))
+        # what is on DISK must say where these columns belong: the shank file's metadata lists the original's channels it holds
+        try:
+            import spikeglx
+            ms = spikeglx.read_meta_data(Path(good[0]).with_suffix(".meta"))
+            listed = []
+            for part in str(ms["snsSaveChanSubset_orig"]).split(","):
+                a_ = part.split(":")
+                listed += list(range(int(float(a_[0])), int(float(a_[-1])) + 1))
+            if listed != [int(v) for v in c]:
+                return False
+        except Exception:
+            return False
     return np.array_equal(full, rec.raw)
 
 
